@@ -388,6 +388,67 @@ theorem entry_empty_gives_up (v : Variant) (he : v.emptyStop = true) (fuel : Nat
     decodeGet_ok, std_ccShrink, show (0 : Nat) = 202 ↔ False by decide, if_false, ne_eq,
     not_true_eq_false, emptyAnswer_nil, he, if_true, List.length_append, List.length_singleton, and_self]
 
+/-- **A device that TRUNCATES instead of refusing** - every Get SEL Entry "completed", every answer cut
+to some number of bytes ≥ 1 (any sequence of caps) - **is read exactly**: the stored record and the next
+record id, in at most one request per missing byte, with "entire record" asked at the growing offset
+every time.  Either variant. -/
+theorem entry_exact_truncated (v : Variant) :
+    ∀ (fuel : Nat) (w : World ScriptSel) (res rid : Nat) (acc : List Nat),
+      w.dev.script = ⟨[], .completed⟩ → w.dev.caps.Positive → w.dev.entry.length = 16 → typeOk w.dev.entry →
+      w.dev.next < 65536 → acc = w.dev.entry.take acc.length → acc.length < 16 → (16 - acc.length) + 1 ≤ fuel →
+      (entryLoop stdCfg v scriptSend fuel w res rid ((255 : Nat) : Int) acc).out = .ok (w.dev.entry, w.dev.next) ∧
+      (entryLoop stdCfg v scriptSend fuel w res rid ((255 : Nat) : Int) acc).w.trace.length
+        ≤ w.trace.length + (16 - acc.length) := by
+  intro fuel
+  induction fuel with
+  | zero => intro w res rid acc _ _ _ _ _ _ _ hfu; omega
+  | succ fuel ih =>
+    intro w res rid acc hs hcp he hty hnx hacc hal hfu
+    have hc : w.dev.script.next.1.code = 0 := by rw [hs]; rfl
+    have hn : w.dev.script.next.2 = ⟨[], .completed⟩ := by rw [hs]; rfl
+    have hl255 : reqLenN 255 acc.length = 255 := by simp [reqLenN]
+    have hnx' : w.dev.next % 256 + 256 * (w.dev.next / 256 % 256) = w.dev.next := u16_bytes _ hnx
+    unfold entryLoop
+    simp only [wire_reqLen 255 acc.length (by omega) (by omega), hl255]
+    simp only [xchg, script_get_ok _ _ _ _ _ (show acc.length < 256 by omega) (show 255 < 256 by omega) hc, if_true,
+      decodeGet_ok, std_ccShrink, std_recLen, show (0 : Nat) = 202 ↔ False by decide, if_false, ne_eq,
+      not_true_eq_false, hnx']
+    generalize hd : cut w.dev.caps.next.1 (w.dev.entry.drop acc.length) = data
+    have hdl : 1 ≤ data.length := by
+      rw [← hd]; exact cut_length_pos _ _ hcp.next.2 (by simp only [List.length_drop, he]; omega)
+    have hdle : data.length ≤ 16 - acc.length := by
+      rw [← hd]
+      cases hcap : w.dev.caps.next.1 with
+      | none => simp only [cut, List.length_drop, he]; omega
+      | some k => simp only [cut, List.length_take, List.length_drop, he]; omega
+    have hnew : acc ++ data = w.dev.entry.take (acc.length + data.length) := by
+      have : data = (w.dev.entry.drop acc.length).take data.length := by
+        rw [← hd]
+        cases hcap : w.dev.caps.next.1 with
+        | none => simp only [cut]; rw [List.take_of_length_le (Nat.le_refl _)]
+        | some k =>
+          simp only [cut, List.length_take]
+          by_cases hk : k ≤ (w.dev.entry.drop acc.length).length
+          · rw [Nat.min_eq_left hk]
+          · rw [Nat.min_eq_right (by omega), List.take_of_length_le (by omega),
+              List.take_of_length_le (Nat.le_refl _)]
+      conv => lhs; rw [hacc, this]
+      exact take_take_drop _ _ _
+    simp only [emptyAnswer_of_len v data hdl, Bool.false_eq_true, if_false]
+    have hnl : (acc ++ data).length = acc.length + data.length := by simp
+    rw [hnl]
+    by_cases hdone : acc.length + data.length ≥ 16
+    · simp only [hdone, if_true]
+      have h16 : acc.length + data.length = 16 := by omega
+      rw [hnew, h16, List.take_of_length_le (by omega)]
+      exact ⟨selEntry_ok _ _ he hty, by simp only [List.length_append, List.length_singleton]; omega⟩
+    · simp only [hdone, if_false]
+      have := ih ⟨w.dev.advance, w.trace ++ [⟨getReq res rid acc.length 255,
+          0 :: w.dev.next % 256 :: w.dev.next / 256 % 256 :: data⟩]⟩ res rid (acc ++ data) hn hcp.next.1 he hty hnx
+        (by rw [hnl]; exact hnew) (by rw [hnl]; omega) (by rw [hnl]; omega)
+      refine ⟨this.1, Nat.le_trans this.2 ?_⟩
+      simp only [List.length_append, List.length_singleton, advance_entry]; omega
+
 /-- **CAh for ever**: the repaired get_sel_entry asks FFh, 16, 15 … 1 - 17 requests - and raises
 RetryError. -/
 theorem entry_gives_up_partial (v : Variant) (hv : Floored v) :
